@@ -33,6 +33,7 @@ class SymCtx:
         self.results = []  # (label, status, inputs|None)
         self.notes = {}
         self.msgs = {}
+        self.sample_smt = None
 
     def _reset(self):
         self.inputs = {}  # name -> ('int', term, bits) | ('bytes', [terms]) | ('choice', idx)
@@ -87,6 +88,13 @@ class SymCtx:
         if isinstance(cond, SymInt):
             cond = (cond != 0)
         if isinstance(cond, SymBool):
+            if self.sample_smt is None:
+                try:
+                    neg = z3.Not(cond.t).sexpr()
+                    self.sample_smt = {"check": label, "path_condition_tail": self.ex.solver.sexpr()[-700:],
+                                       "negated_goal": neg[:900] + (" ..." if len(neg) > 900 else "")}
+                except Exception:
+                    self.sample_smt = {}
             st, model = self.ex.sat_with(z3.Not(cond.t))
             if st == "unsat":
                 self.results.append((label, "discharged", "solver"))
@@ -324,7 +332,7 @@ def _run_ob(task):
                     d["discharged"] += 1
             if out["sample"] is None and ctx.inputs:
                 try:
-                    out["sample"] = {"decisions": [list(x) for x in p.decisions[:12]],
+                    out["sample"] = {"smt2": ctx.sample_smt, "decisions": [list(x) for x in p.decisions[:12]],
                                      "inputs": {k: (v[0] if v[0] != "choice" else v[1]) for k, v in ctx.inputs.items()}}
                 except Exception:
                     pass
